@@ -222,12 +222,14 @@ def papply(A, x, spec):
         return sum(A.partitions(x) or [len(x)])       # the partition lengths add up to the length
     if op == "repartition":
         return A.repartition(x, spec["lengths"])
+    # mergebool=False: with the default, concatenating unions of numbers and booleans turns the booleans into numbers in the eager array
+    # (its union is simplified) and not in the partitioned one (partitions are only listed) - a matter of merging, not of partitioning
     if op == "concat_self":
-        return A.concatenate([x, x])
+        return A.concatenate([x, x], mergebool=False)
     if op == "concat_self_len":
-        return len(A.concatenate([x, x]))
+        return len(A.concatenate([x, x], mergebool=False))
     if op == "concat_self_at":
-        return A.concatenate([x, x])[spec["i"]]
+        return A.concatenate([x, x], mergebool=False)[spec["i"]]
     if op == "pad_none":
         return A.pad_none(x, spec["target"], axis=spec["axis"], clip=spec["clip"])
     if op == "reduce_axis":
